@@ -954,9 +954,16 @@ def run(ctx: Ctx):
     # (2b) void elements in every mixture, exhaustively: each open-form void tag cancels exactly ONE later redundant end tag of its
     # name (a multiset, not a set), a surplus end tag is a stray one (it still ends the text gathered so far)
     import itertools as _it
-    for n in range(1, ctx.n(5, 6) + 1):
+    for n in range(1, ctx.n(6, 7) + 1):
         for seq in _it.product(["<br>", "</br>", "x", "<br/>"], repeat=n):
             add_case("".join(seq), {}, "void-mixtures")
+    # k tags of one name pending at once, then their end tags one by one with text between them (seeded C04-r4m2 needs two pending
+    # tags AND text on both sides of the second end tag)
+    for k in (2, 3, 4):
+        for nm in ("br", "hr", "img", "wbr"):
+            for fill in ("a", " ", "a b"):
+                add_case(f"<{nm}>" * k + "".join(f"{fill}</{nm}>" for _ in range(k + 1)) + fill, {}, "void-mixtures")
+                add_case("<p>" + f"<{nm}>x" * k + "".join(f"</{nm}>{fill}" for _ in range(k)) + "</p>", {}, "void-mixtures")
     for seq in _it.product(["<hr>", "</hr>", "<br>", "</br>", " "], repeat=4):
         add_case("a" + "".join(seq) + "b", {"void": ["hr", "br", "a"]} if len(set(seq)) % 2 else {}, "void-mixtures")
     # (3) option grid on written + malformed documents
